@@ -13,7 +13,9 @@
                   derivative (Coquelicot is_derive / derivable_pt_lim) of the coded value, likewise HuberLoss with sqrt -- these five theorems use the
                   standard-library real axioms, classic and functional extensionality (recorded per theorem in the evidence);
                   NegativeLogLikelihood = minus the mean log-likelihood / mean parameter derivative for every batching, thread count,
-                  arrival order and every function in the role of log, axiom-free
+                  arrival order and every function in the role of log, axiom-free; calling context (C06Ctx): the shared-sum merge as coded
+                  gives the mean loss for every assignment of batch ranges to threads (incl. the call from inside a parallel region),
+                  the per-thread-slot variant is refuted, axiom-free
   correspondence  extracted model (exact Q arithmetic; on real data the float instantiation of the Section-polymorphic
                   cross-entropy (both label encodings), HuberLoss and AbsoluteLoss at 1e-12) vs harness/c06_loss.cpp compiled from
                   /repo on the same case lines: regularizers (G), the 10 loss classes on one batch through batch and
@@ -24,6 +26,9 @@
                   exact when both class sizes are powers of two, else 4e-14), SquaredLoss<Sequence,Sequence> with ignored prefix and
                   fresh / reused gradient objects (S; exact), NegativeLogLikelihood with a one-output LinearModel, several partitions /
                   thread counts, clamped predictions (P; the model's logarithm parameter is the double logarithm embedded into Q, 1e-12).
+                  Extreme arguments (X stream, L/M lines): the table losses on magnitudes 1e3, 1e5, 709.75, 745.25 exactly; calling-context
+                  stage (harness `ctx` mode): C06Ctx.errfn_ctx with the nested assignment vs ErrorFunction evaluated inside parallel regions
+                  (E, R, N lines).
                   Exact on dyadic data (the implementation's double must be the model's rational, or its correctly rounded
                   value when a division by a non power of two is involved; Huber's outer branch: 1e-15).
   spec monitors   evaluated on the implementation's output only, on all anchored classes incl. those without Coq model
@@ -33,7 +38,16 @@
                   count, equal weights = unweighted, weighted = sum w l / sum w, regularizer adds factor*term exactly, mini-batch
                   value = mean of one batch, central finite differences for loss gradients (w.r.t. prediction) and
                   ErrorFunction gradients (w.r.t. parameters; linear, offset-free, tanh and logistic models), reference
-                  log-sum-exp for cross-entropy incl. logits of magnitude 800, brute-force AUC.
+                  log-sum-exp for cross-entropy incl. logits of magnitude 800, brute-force AUC;
+                  extreme arguments: cross-entropy family (class / probability-vector labels, one / several outputs, double / single
+                  precision) on logits up to 1e5 and next to the exp overflow (709.78) / underflow (745.13) thresholds, the cut-off -200 and
+                  zero, right and wrong side of the label, batches mixing extreme and ordinary rows: everything finite, every value =
+                  the exact loss, every gradient entry = the exact derivative (60-digit decimal arithmetic), batch = sum (mon_ref);
+                  NegativeLogLikelihood on probabilities around its clamp 1e-100, denormal, zero, negative, 1e300 (mon_P);
+                  calling context: every data-set evaluation (ErrorFunction plain / mini-batch / weighted / regularised, 1, 2, 3, 7 batches
+                  of unequal sizes, AbstractLoss::eval(Data,Data), NegativeLogLikelihood, NegativeAUC, weighted ZeroOneLoss) repeated by ONE
+                  thread of `omp parallel num_threads(2|3)` and by EVERY thread at once on its own copy = serial reference = main-thread
+                  call, exact on dyadic data, 1e-12 otherwise (mon_ctx).
 """
 import os, sys, re, math, random, struct
 from fractions import Fraction
@@ -997,6 +1011,8 @@ def main():
         "NegativeAUC: the model sorts with insertion sort, std::sort may order equal scores differently -- C06_auc_sweep_any_sorted_permutation proves the sweep gives the same value for every non-increasing arrangement; the model returns NaN exactly when a class is absent (the C++ computes 0.0/0.0) and the exact rational otherwise; the C++ value is compared exactly when both class sizes are powers of two (all double operations exact) and at 4e-14 absolute otherwise (FP/double(N), TP/double(P) round; a priori error bound 1.2e-14 for at most 21 score groups)",
         "NegativeLogLikelihood: the Coq model is parametric in the logarithm (the theorems hold for every function); the extracted model is run with lg(q) = the double nearest to q, std log, result read back as a rational, and compared with the C++ at 1e-12 relative to the largest |log| term; only LinearModel(nin,1) is tied, other models enter the theorem through the hypothesis that weightedParameterDerivative is a sum over the batch",
         "the real-number theorems about cross-entropy and HuberLoss (is_derive) are about the model's code read over R with exp/ln, not about IEEE doubles; they depend on ClassicalDedekindReals.sig_forall_dec, ClassicalDedekindReals.sig_not_dec, Classical_Prop.classic, FunctionalExtensionality.functional_extensionality_dep",
+        "calling-context stage: the harness requests its teams with the num_threads clause after omp_set_dynamic(0) / omp_set_max_active_levels(1) and reports the team sizes it got (obligation); inside a region the library's own loop runs on an inner team of one thread -- nested parallelism switched on, and other OpenMP runtimes than libgomp, are not exercised; the three instances of a line share the stateless loss object",
+        "extreme-argument reference: Python decimal arithmetic with 60 significant digits (exp, ln) on the exact decimal expansion of the doubles / floats handed to the loss; compared at 1e-12 (2e-6 for the single-precision variants) relative to max(1, largest |logit| of the row) for values and absolutely for gradient entries (|gradient| <= 1)",
         "finite-difference monitors use central differences with steps 2^-17 and 2^-20 (entries where the two disagree, i.e. kinks, are skipped) at 1e-5 relative"]
     ck.assumptions = [
         "datasets are non-empty (ErrorFunctionImpl divides by the number of batches/elements; zero batches is an integer division by zero in the C++)",
@@ -1288,7 +1304,7 @@ def main():
     ck.cov["distinct_nontrivial"] = len(set(l for l in flat if nontrivial(l)))
     ck.cov["rule"] = ("one evaluation = one case line executed by the harness compiled from /repo (a loss on one batch through 4 entry points, AbstractLoss::eval on a partitioned dataset, "
                       "ErrorFunction eval+evalDerivative in one configuration of loss x model x partition x thread count x weights/regularizer/mini-batch, a regularizer, NegativeAUC, "
-                      "ZeroOneLoss weighted eval, SquaredLoss<Sequence,Sequence> eval+evalDerivative on one batch of sequences, NegativeLogLikelihood eval+evalDerivative in one partition x thread count); non-trivial = at least two elements (parameters for G); distinct = distinct case lines")
+                      "ZeroOneLoss weighted eval, SquaredLoss<Sequence,Sequence> eval+evalDerivative on one batch of sequences, NegativeLogLikelihood eval+evalDerivative in one partition x thread count); non-trivial = at least two elements (parameters for G); distinct = distinct case lines; the calling-context stage repeats every data-set line 8 more times inside parallel regions (calling_context_lines), not counted here")
     ck.cov["samples"] = [c[:2] for c in (cases[:1] + cases[len(cases) // 2:len(cases) // 2 + 1] + zcases[:1])]
     ck.cov["traces_validated_against_impl"] = len(cases)
     ck.notes["line_kinds"] = kinds
